@@ -54,7 +54,9 @@ def is_well_formed_response(request: RequestDatagram, response) -> bool:
         return isinstance(token, bytes) and len(token) == constants.HASH_LENGTH \
             and _is_contact_triple_list(response.get(b'contacts', [])) \
             and isinstance(response.get(PAGE_KEY, 0), int) and isinstance(blob_peers, list) \
-            and all(isinstance(p, bytes) and len(p) == 6 + constants.HASH_LENGTH for p in blob_peers)
+            and all(isinstance(page, list) and
+                    all(isinstance(p, bytes) and len(p) == 6 + constants.HASH_LENGTH for p in page)
+                    for k, page in response.items() if isinstance(k, bytes) and len(k) == constants.HASH_LENGTH)
     return False
 
 
